@@ -41,7 +41,9 @@ var (
 	// counter expressions a configuration may list
 	vocabCounterExprs = []string{"editor/opens", "go/cmd/build", "flag:{v,x,json}", "gopls/gotoolchain:{auto,local,other}", "crash/crash", "gopls/client:{vscode,vim}", "editor/opens\ufffd", "flag:\ufffd",
 		// bucket texts with a closing brace that is not the last byte: the list is everything after the first {, less one final }
-		"lang:{go}1,rust}", "mode:{a,b}x"}
+		"lang:{go}1,rust}", "mode:{a,b}x",
+		// characters that HTML escaping rewrites (a viewer must look the raw name up)
+		"latency:{<1s,>1s}", `editor/"quoted"&more`}
 	vocabStackExprs = []string{"crash/crash", "gopls/bug", "editor/opens"}
 	frames          = "\ngolang.org/x/tools/gopls.main:+3,+0x1a\n\".run:+10,+0x44\nruntime.main:+100,+0x2"
 )
@@ -62,6 +64,7 @@ func localNames(r *verifrt.Rand, canary string) map[string]uint64 {
 		"flag:", "flag:{v,x,json}", "flag:vx", "flag:V", "xflag:v", "flag:v ", " flag:v", "flag:v,x", "flag", "editor/opens2", "editor/open", "Editor/opens",
 		"gopls/gotoolchain:", "gopls/gotoolchain:auto,local", "gopls/client:emacs", "go/cmd/build}", "{v,x,json}",
 		"lang:go", "lang:go}1", "lang:rust", "lang:rust}", "mode:a", "mode:b", "mode:b}x",
+		"latency:<1s", "latency:>1s", "latency:1s", "latency:&lt;1s", `editor/"quoted"&more`, "editor/&#34;quoted&#34;&amp;more", "crash/<unknown>" + frames, "crash/&lt;unknown&gt;" + frames,
 		// plain counters named like stacks and vice versa
 		"crash/crash", "gopls/bug",
 		"crash/crash" + frames, "gopls/bug" + frames, "editor/opens" + frames, "go/cmd/build" + frames, "crash/crash2" + frames, "crash" + frames,
